@@ -27,7 +27,9 @@ def run(tier, replay=None):
         groups += ["G_udp_fixed"]
     n = 36 if tier == "quick" else 400
     total, drift, _ = transport.run_groups(v, groups, n, lengths=True)
+    # "the content of any other datagram never appears in a returned result" - also not later on: results kept across further traffic
+    common.kept_pass(v, tier)
     v.coverage["rule"] = ("behaviours of Transport.tla (TLC -simulate, %d per group) over all three delivery paths, controller answers of 1..2 datagrams from 8 classes + silence/refused/reset with delays 0..T, "
-                          "plus one hand-made behaviour per datagram class x {ordinary call, status call} x path and per wrong length and path (wrong-length datagram, then the genuine reply); up to 2 strays from 5 classes injected by strangers into the call's source port; each replayed on real sockets and validated by Trace_Transport. distinct = scenarios" % n)
+                          "plus one hand-made behaviour per datagram class x {ordinary call, status call} x path and per wrong length and path (wrong-length datagram, then the genuine reply); up to 2 strays from 5 classes injected by strangers into the call's source port; each replayed on real sockets and validated by Trace_Transport; every reply-bearing operation over each path on the real driver, the result kept across 1-4 further exchanges and judged again against its own datagram (OnlyOwnDatagram). distinct = scenarios" % n)
     v.coverage["checker_cmd"] = "tlc MC_Transport (3 exhaustive configs); tlc -simulate MC_TransportGen; tlc Trace_Transport (StateDeque)"
     return v.finish()
